@@ -13,6 +13,8 @@ type SimFile struct {
 	closed bool
 	// fault injection
 	FailWriteAt int // 1-based write call that fails (0 = never)
+	FailReadIn  int // >0: the FailReadIn-th Read from now fails once (transient I/O error)
+	ReadFaults  int
 	writes      int
 	Writes      int
 	Reads       int
@@ -28,6 +30,13 @@ func (f *SimFile) Read(p []byte) (int, error) {
 		return 0, errors.New("simfile: read on closed file")
 	}
 	f.Reads++
+	if f.FailReadIn > 0 {
+		f.FailReadIn--
+		if f.FailReadIn == 0 {
+			f.ReadFaults++
+			return 0, errors.New("simfile: injected read error")
+		}
+	}
 	d := *f.Data
 	if f.pos >= int64(len(d)) {
 		if len(p) == 0 {
